@@ -20,6 +20,7 @@ import (
 func init() {
 	customKinds["panic_sites"] = panicSites
 	customKinds["file_text_has"] = fileTextHas
+	customKinds["callgraph_text_has"] = callgraphTextHas
 }
 
 var wsRe = regexp.MustCompile(`\s+`)
@@ -49,7 +50,16 @@ func looksFloat(s string) bool {
 }
 
 // panicSites. Extra: "funcs": functions whose index/slice/assert sites are inventoried ("*" = all);
-// "scan_all": kinds inventoried in EVERY function of the package (subset of div, panic, assert).
+// "scan_all": kinds inventoried in EVERY function of the package (subset of div, panic, assert, intn, rootspan).
+//
+// A site is (function, kind, SHAPE, GUARDS):
+//   SHAPE  = the expression with what does not matter for its safety abstracted: the base operand of an index /
+//            slice expression is `_` (renaming a local or slicing msg instead of a copy of it is the same site class);
+//   GUARDS = the conditions that hold on every path to the site, collected structurally: enclosing if / else-if /
+//            else branches, tagless and tagged switch cases (with the negations of the earlier cases), the left operands
+//            of && (and negated of ||), loop conditions, and the negation of every earlier `if c { return|continue|break|panic }`
+//            of the enclosing blocks. So `if a {..} else if b {X}` and `switch { case a: .. case b: X }` and
+//            `if !b { continue }; X` all give X the guard b.
 func panicSites(it Item) (string, error) {
 	p, err := loadPkg(it.Pkg)
 	if err != nil {
@@ -63,17 +73,66 @@ func panicSites(it Item) (string, error) {
 	for _, k := range extraStrings(it, "scan_all") {
 		scanAll[k] = true
 	}
-	type site struct{ fn, kind, text string }
+	type site struct{ fn, kind, shape, guards string }
 	seen := map[site]bool{}
 	var sites []site
-	add := func(fn, kind, text string) {
-		s := site{fn, kind, text}
-		if !seen[s] {
-			seen[s] = true
-			sites = append(sites, s)
-		}
-	}
 	found := map[string]bool{}
+	neg := func(c string) string {
+		if strings.HasPrefix(c, "!(") && strings.HasSuffix(c, ")") {
+			return c[2 : len(c)-1]
+		}
+		return "!(" + c + ")"
+	}
+	var conjuncts func(e ast.Expr) []string
+	conjuncts = func(e ast.Expr) []string {
+		if pe, ok := e.(*ast.ParenExpr); ok {
+			return conjuncts(pe.X)
+		}
+		if be, ok := e.(*ast.BinaryExpr); ok && be.Op == token.LAND {
+			return append(conjuncts(be.X), conjuncts(be.Y)...)
+		}
+		if ue, ok := e.(*ast.UnaryExpr); ok && ue.Op == token.NOT {
+			return []string{neg(normText(p, ue.X))}
+		}
+		return []string{normText(p, e)}
+	}
+	// the negation of a condition, as conjuncts when it is a disjunction
+	var negConj func(e ast.Expr) []string
+	negConj = func(e ast.Expr) []string {
+		if pe, ok := e.(*ast.ParenExpr); ok {
+			return negConj(pe.X)
+		}
+		if be, ok := e.(*ast.BinaryExpr); ok && be.Op == token.LOR {
+			return append(negConj(be.X), negConj(be.Y)...)
+		}
+		if ue, ok := e.(*ast.UnaryExpr); ok && ue.Op == token.NOT {
+			return conjuncts(ue.X)
+		}
+		if be, ok := e.(*ast.BinaryExpr); ok {
+			flip := map[token.Token]string{token.EQL: "!=", token.NEQ: "==", token.LSS: ">=", token.GEQ: "<", token.GTR: "<=", token.LEQ: ">"}
+			if op, ok := flip[be.Op]; ok {
+				return []string{normText(p, be.X) + " " + op + " " + normText(p, be.Y)}
+			}
+		}
+		return []string{neg(normText(p, e))}
+	}
+	terminates := func(b *ast.BlockStmt) bool {
+		if b == nil || len(b.List) == 0 {
+			return false
+		}
+		switch x := b.List[len(b.List)-1].(type) {
+		case *ast.ReturnStmt:
+			return true
+		case *ast.BranchStmt:
+			return x.Tok == token.CONTINUE || x.Tok == token.BREAK || x.Tok == token.GOTO
+		case *ast.ExprStmt:
+			if ce, ok := x.X.(*ast.CallExpr); ok {
+				ft := normText(p, ce.Fun)
+				return ft == "panic" || ft == "os.Exit"
+			}
+		}
+		return false
+	}
 	for _, f := range p.files {
 		for _, d := range f.Decls {
 			fd, ok := d.(*ast.FuncDecl)
@@ -85,7 +144,6 @@ func panicSites(it Item) (string, error) {
 			if funcs[name] {
 				found[name] = true
 			}
-			// type assertions in comma-ok form or in type switches are safe
 			okAssert := map[*ast.TypeAssertExpr]bool{}
 			ast.Inspect(fd.Body, func(n ast.Node) bool {
 				switch x := n.(type) {
@@ -111,105 +169,181 @@ func panicSites(it Item) (string, error) {
 				}
 				return true
 			})
-			ast.Inspect(fd.Body, func(n ast.Node) bool {
+			add := func(kind, shape string, conds []string) {
+				var gs []string
+				dup := map[string]bool{}
+				for _, c := range conds {
+					if !dup[c] {
+						dup[c] = true
+						gs = append(gs, c)
+					}
+				}
+				s := site{name, kind, shape, coqStrList(gs)}
+				if !seen[s] {
+					seen[s] = true
+					sites = append(sites, s)
+				}
+			}
+			var walk func(n ast.Node, conds []string)
+			children := func(n ast.Node, conds []string) {
+				ast.Inspect(n, func(c ast.Node) bool {
+					if c == n || c == nil {
+						return true
+					}
+					walk(c, conds)
+					return false
+				})
+			}
+			with := func(conds []string, more ...string) []string {
+				return append(append([]string{}, conds...), more...)
+			}
+			walk = func(n ast.Node, conds []string) {
+				if n == nil {
+					return
+				}
 				switch x := n.(type) {
+				case *ast.BlockStmt:
+					cur := conds
+					for _, st := range x.List {
+						walk(st, cur)
+						if is, ok := st.(*ast.IfStmt); ok && is.Else == nil && terminates(is.Body) {
+							cur = with(cur, negConj(is.Cond)...)
+						}
+					}
+					return
+				case *ast.IfStmt:
+					walk(x.Init, conds)
+					walk(x.Cond, conds)
+					walk(x.Body, with(conds, conjuncts(x.Cond)...))
+					if x.Else != nil {
+						walk(x.Else, with(conds, negConj(x.Cond)...))
+					}
+					return
+				case *ast.SwitchStmt:
+					walk(x.Init, conds)
+					walk(x.Tag, conds)
+					cur := conds
+					var deflt *ast.CaseClause
+					for _, st := range x.Body.List {
+						cc := st.(*ast.CaseClause)
+						if len(cc.List) == 0 {
+							deflt = cc
+							continue
+						}
+						var here []string
+						if x.Tag == nil {
+							if len(cc.List) == 1 {
+								here = conjuncts(cc.List[0])
+							} else {
+								var alts []string
+								for _, e := range cc.List {
+									alts = append(alts, normText(p, e))
+								}
+								here = []string{strings.Join(alts, " || ")}
+							}
+						} else {
+							var vals []string
+							for _, e := range cc.List {
+								vals = append(vals, normText(p, e))
+							}
+							here = []string{normText(p, x.Tag) + " in [" + strings.Join(vals, ", ") + "]"}
+						}
+						for _, e := range cc.List {
+							walk(e, cur)
+						}
+						for _, b := range cc.Body {
+							walk(b, with(cur, here...))
+						}
+						if x.Tag == nil && len(cc.List) == 1 {
+							cur = with(cur, negConj(cc.List[0])...)
+						} else {
+							cur = with(cur, neg(here[0]))
+						}
+					}
+					if deflt != nil {
+						for _, b := range deflt.Body {
+							walk(b, cur)
+						}
+					}
+					return
+				case *ast.ForStmt:
+					walk(x.Init, conds)
+					walk(x.Cond, conds)
+					inner := conds
+					if x.Cond != nil {
+						inner = with(conds, conjuncts(x.Cond)...)
+					}
+					walk(x.Post, inner)
+					walk(x.Body, inner)
+					return
+				case *ast.BinaryExpr:
+					if x.Op == token.LAND {
+						walk(x.X, conds)
+						walk(x.Y, with(conds, conjuncts(x.X)...))
+						return
+					}
+					if x.Op == token.LOR {
+						walk(x.X, conds)
+						walk(x.Y, with(conds, negConj(x.X)...))
+						return
+					}
+					if (x.Op == token.QUO || x.Op == token.REM) && (full || scanAll["div"]) {
+						t := normText(p, x)
+						if bl, ok := x.Y.(*ast.BasicLit); !ok || bl.Kind != token.INT || bl.Value == "0" {
+							if looksFloat(t) {
+								add("fdiv", t, conds)
+							} else {
+								add("div", t, conds)
+							}
+						}
+					}
 				case *ast.IndexExpr:
-					if !full {
-						break
+					if full {
+						if bl, ok := x.Index.(*ast.BasicLit); !ok || bl.Kind != token.STRING {
+							add("index", "_["+normText(p, x.Index)+"]", conds)
+						}
 					}
-					if bl, ok := x.Index.(*ast.BasicLit); ok && bl.Kind == token.STRING {
-						break // map lookup by literal key
-					}
-					add(name, "index", normText(p, x))
 				case *ast.SliceExpr:
 					if full {
-						add(name, "slice", normText(p, x))
+						lo, hi := "", ""
+						if x.Low != nil {
+							lo = normText(p, x.Low)
+						}
+						if x.High != nil {
+							hi = normText(p, x.High)
+						}
+						add("slice", "_["+lo+":"+hi+"]", conds)
 					}
 				case *ast.TypeAssertExpr:
 					if (full || scanAll["assert"]) && x.Type != nil && !okAssert[x] {
-						add(name, "assert", normText(p, x))
+						add("assert", normText(p, x), conds)
 					}
-				case *ast.BinaryExpr:
-					if (x.Op == token.QUO || x.Op == token.REM) && (full || scanAll["div"]) {
-						t := normText(p, x)
-						if bl, ok := x.Y.(*ast.BasicLit); ok && bl.Kind == token.INT && bl.Value != "0" {
-							break // non-zero integer literal divisor
-						}
-						if looksFloat(t) {
-							add(name, "fdiv", t)
-						} else {
-							add(name, "div", t)
+				case *ast.SelectorExpr:
+					if scanAll["rootspan"] && strings.HasSuffix(normText(p, x.X), ".RootSpan") {
+						add("rootspan", "deref "+normText(p, x.X), conds)
+					}
+				case *ast.AssignStmt:
+					if scanAll["rootspan"] {
+						for _, r := range x.Rhs {
+							if strings.HasSuffix(normText(p, r), ".RootSpan") {
+								add("rootspan", "assign "+normText(p, r), conds)
+							}
 						}
 					}
 				case *ast.CallExpr:
-					if full || scanAll["panic"] || scanAll["intn"] {
-						ft := normText(p, x.Fun)
-						if (ft == "rand.Intn" || ft == "rand.Int63n" || ft == "rand.Int31n") && (full || scanAll["intn"]) && len(x.Args) == 1 {
-							if bl, ok := x.Args[0].(*ast.BasicLit); !ok || bl.Kind != token.INT || bl.Value == "0" {
-								add(name, "intn", normText(p, x))
-							}
-						}
-						if (full || scanAll["panic"]) && (ft == "panic" || ft == "os.Exit" || strings.HasPrefix(ft, "log.Fatal") || strings.HasSuffix(ft, ".Fatalf") || strings.HasSuffix(ft, ".Fatal")) {
-							add(name, "exit", ft)
+					ft := normText(p, x.Fun)
+					if (ft == "rand.Intn" || ft == "rand.Int63n" || ft == "rand.Int31n") && (full || scanAll["intn"]) && len(x.Args) == 1 {
+						if bl, ok := x.Args[0].(*ast.BasicLit); !ok || bl.Kind != token.INT || bl.Value == "0" {
+							add("intn", normText(p, x), conds)
 						}
 					}
-				}
-				return true
-			})
-		}
-	}
-	if scanAll["rootspan"] {
-		// uses of a possibly-nil *Span taken from <x>.RootSpan: dereferences `<x>.RootSpan.<sel>` and assignments
-		// `<v> = <x>.RootSpan`, each with the innermost enclosing if-condition that mentions RootSpan ("unguarded" if none)
-		for _, f := range p.files {
-			for _, d := range f.Decls {
-				fd, ok := d.(*ast.FuncDecl)
-				if !ok || fd.Body == nil {
-					continue
-				}
-				name := funcName(fd)
-				var walk func(n ast.Node, guard string)
-				walk = func(n ast.Node, guard string) {
-					if n == nil {
-						return
+					if (full || scanAll["panic"]) && (ft == "panic" || ft == "os.Exit" || strings.HasPrefix(ft, "log.Fatal") || strings.HasSuffix(ft, ".Fatalf") || strings.HasSuffix(ft, ".Fatal")) {
+						add("exit", ft, nil)
 					}
-					switch x := n.(type) {
-					case *ast.IfStmt:
-						if x.Init != nil {
-							walk(x.Init, guard)
-						}
-						walk(x.Cond, guard)
-						g := guard
-						if ct := normText(p, x.Cond); strings.Contains(ct, "RootSpan") {
-							g = ct
-						}
-						walk(x.Body, g)
-						if x.Else != nil {
-							walk(x.Else, guard)
-						}
-						return
-					case *ast.SelectorExpr:
-						if strings.HasSuffix(normText(p, x.X), ".RootSpan") {
-							add(name, "rootspan", normText(p, x)+" | if "+guard)
-						}
-					case *ast.AssignStmt:
-						for _, r := range x.Rhs {
-							if strings.HasSuffix(normText(p, r), ".RootSpan") {
-								add(name, "rootspan", normText(p, x)+" | if "+guard)
-							}
-						}
-					}
-					// generic descent
-					ast.Inspect(n, func(c ast.Node) bool {
-						if c == n || c == nil {
-							return true
-						}
-						walk(c, guard)
-						return false
-					})
 				}
-				walk(fd.Body, "unguarded")
+				children(n, conds)
 			}
+			walk(fd.Body, nil)
 		}
 	}
 	for f := range funcs {
@@ -225,13 +359,16 @@ func panicSites(it Item) (string, error) {
 		if a.kind != b.kind {
 			return a.kind < b.kind
 		}
-		return a.text < b.text
+		if a.shape != b.shape {
+			return a.shape < b.shape
+		}
+		return a.guards < b.guards
 	})
 	var rows []string
 	for _, s := range sites {
-		rows = append(rows, fmt.Sprintf("(%s, %s, %s)", coqStr(s.fn), coqStr(s.kind), coqStr(s.text)))
+		rows = append(rows, fmt.Sprintf("(%s, %s, %s, %s)", coqStr(s.fn), coqStr(s.kind), coqStr(s.shape), s.guards))
 	}
-	return fmt.Sprintf("Definition %s : list (string * string * string) :=\n  [%s].", it.Coq, strings.Join(rows, ";\n   ")), nil
+	return fmt.Sprintf("Definition %s : list (string * string * string * list string) :=\n  [%s].", it.Coq, strings.Join(rows, ";\n   ")), nil
 }
 
 // fileTextHas: does the whitespace-normalised text of a (non-Go) file of the repository match Regex?
@@ -247,6 +384,69 @@ func fileTextHas(it Item) (string, error) {
 	}
 	v := "false"
 	if re.MatchString(wsRe.ReplaceAllString(string(b), " ")) {
+		v = "true"
+	}
+	return fmt.Sprintf("Definition %s : bool := %s.", it.Coq, v), nil
+}
+
+// callgraphTextHas: does Regex match the normalised text of Func or of any function / method of the same package
+// reachable from it by calls (matched by name, depth <= 4)? A statement that is moved verbatim into a helper called
+// from Func keeps the fact.
+func callgraphTextHas(it Item) (string, error) {
+	p, err := loadPkg(it.Pkg)
+	if err != nil {
+		return "", err
+	}
+	re, err := regexp.Compile(it.Regex)
+	if err != nil {
+		return "", err
+	}
+	byName := map[string][]*ast.FuncDecl{}
+	for _, f := range p.files {
+		for _, d := range f.Decls {
+			if fd, ok := d.(*ast.FuncDecl); ok {
+				byName[fd.Name.Name] = append(byName[fd.Name.Name], fd)
+			}
+		}
+	}
+	start := findFunc(p, it.Func)
+	if start == nil {
+		return "", fmt.Errorf("function %s not found in %s", it.Func, it.Pkg)
+	}
+	seen := map[*ast.FuncDecl]bool{}
+	hit := false
+	var visit func(fd *ast.FuncDecl, depth int)
+	visit = func(fd *ast.FuncDecl, depth int) {
+		if seen[fd] || depth > 4 || hit {
+			return
+		}
+		seen[fd] = true
+		if re.MatchString(funcText(p, fd)) {
+			hit = true
+			return
+		}
+		if fd.Body == nil {
+			return
+		}
+		ast.Inspect(fd.Body, func(n ast.Node) bool {
+			if ce, ok := n.(*ast.CallExpr); ok {
+				name := ""
+				switch f := ce.Fun.(type) {
+				case *ast.Ident:
+					name = f.Name
+				case *ast.SelectorExpr:
+					name = f.Sel.Name
+				}
+				for _, callee := range byName[name] {
+					visit(callee, depth+1)
+				}
+			}
+			return true
+		})
+	}
+	visit(start, 0)
+	v := "false"
+	if hit {
 		v = "true"
 	}
 	return fmt.Sprintf("Definition %s : bool := %s.", it.Coq, v), nil
